@@ -113,6 +113,8 @@ func main() {
 			"GlobalMaxInflightBatchAcquirePercent", "GlobalMaxInflightBatchAcquireMin"} {
 			fmt.Fprintf(&b, "def %s : Int := %s\n", strings.ToLower(n[:1])+n[1:], lit(value(f, gf, n)))
 		}
+		b.WriteString("/-! `batchAcquireMaxDuration` of " + gf + " in nanoseconds -/\n")
+		fmt.Fprintf(&b, "def batchAcquireMaxDuration : Int := %s\n", lit(value(f, gf, "batchAcquireMaxDuration")))
 		const cf = "pkg/ratelimiter/clientsets/clientsets.go"
 		c := g.ParseFile(cf)
 		b.WriteString("/-! durations of " + cf + " in nanoseconds -/\n")
